@@ -10,11 +10,14 @@ import (
 	"io"
 	"math/rand"
 	"net/http"
+	"net/http/httptest"
 	"net/url"
 	"reflect"
 	"runtime"
 	"strconv"
 	"strings"
+	"sync"
+	"sync/atomic"
 	"testing"
 
 	"github.com/imroc/req/v3/internal/verifh"
@@ -59,6 +62,7 @@ type c18Scenario struct {
 	conds                                                []bool // nil = default rule
 	checker                                              c18Checker
 	verb                                                 int
+	e2e                                                  string // base URL of the loopback origin (\"\" = scripted http.RoundTripper)
 }
 
 var c18ErrGetBody = errors.New("c18 GetBody failure")
@@ -260,6 +264,14 @@ func c18Run(sc *c18Scenario) *c18Obs {
 	}
 	ev := func(s string) { touch(); o.logs[att()] = append(o.logs[att()], s) }
 	raise := func(s string) { touch(); o.raised[att()] = append(o.raised[att()], s) }
+	// the loopback origin logs from its own goroutine, with the attempt index it counted itself
+	evAt := func(a int, s string) {
+		for len(o.logs) <= a {
+			o.logs = append(o.logs, nil)
+			o.raised = append(o.raised, nil)
+		}
+		o.logs[a] = append(o.logs[a], s)
+	}
 
 	if sc.checker.fn != nil {
 		c.SetResultStateCheckFunc(sc.checker.fn)
@@ -312,38 +324,74 @@ func c18Run(sc *c18Scenario) *c18Obs {
 		return &http.Response{StatusCode: h.status, Status: strconv.Itoa(h.status) + " X", Proto: "HTTP/1.1", ProtoMajor: 1, ProtoMinor: 1,
 			Header: c18HTTPHeader(h, tag, chal), Body: body, ContentLength: -1, Request: r}
 	}
-	// first exchange of every attempt: the http.Client's transport
-	c.httpClient.Transport = rtFuncC18(func(r *http.Request) (*http.Response, error) {
-		ev("t")
-		a := att()
-		t := c18At(sc.transport, a, c18TOut{fail: 0})
-		if t.fail >= 0 {
-			raise(c18ErrArg(t.fail))
-			return nil, c18Sentinels[t.fail]
-		}
-		chal := ""
-		if d := digestAt(a); d != nil && d.chalOK {
-			chal = c18Challenge
-		}
-		return mkResp(r, t.h, 2*a, chal), nil
-	})
-	// second exchange (digest): goes through Client.GetTransport().RoundTrip
-	c.GetTransport().DisableAutoDecode()
-	c.GetTransport().WrapRoundTripFunc(func(http.RoundTripper) HttpRoundTripFunc {
-		return func(r *http.Request) (*http.Response, error) {
-			ev("T")
+	if sc.e2e != "" {
+		// real transport over loopback: the origin plays the script
+		sends := 0
+		id := strconv.FormatInt(c18E2ESeq.Add(1), 10)
+		c18E2EHandlers.Store(id, http.HandlerFunc(func(w http.ResponseWriter, r *http.Request) {
+			var h *c18Http
+			tag, chal := 0, ""
+			if strings.HasPrefix(r.Header.Get("Authorization"), "Digest ") {
+				a := sends - 1
+				evAt(a, "T")
+				h, tag = digestAt(a).re.h, 2*a+1
+			} else {
+				a := sends
+				sends++
+				evAt(a, "t")
+				h, tag = c18At(sc.transport, a, c18TOut{}).h, 2*a
+				if d := digestAt(a); d != nil && d.chalOK {
+					chal = c18Challenge
+				}
+			}
+			o.facts[strconv.Itoa(tag)] = h
+			hd := w.Header()
+			for k, v := range c18HTTPHeader(h, tag, chal) {
+				hd[k] = v
+			}
+			if h.ct == "" {
+				hd["Content-Type"] = nil // suppress the server's content sniffing
+			}
+			w.WriteHeader(h.status)
+			io.WriteString(w, h.body)
+		}))
+		defer c18E2EHandlers.Delete(id)
+		defer func(u *string) { *u = "" }(new(string))
+		sc.e2e = strings.TrimSuffix(sc.e2e, "/") + "/c/" + id
+	} else {
+		// first exchange of every attempt: the http.Client's transport
+		c.httpClient.Transport = rtFuncC18(func(r *http.Request) (*http.Response, error) {
+			ev("t")
 			a := att()
-			d := digestAt(a)
-			if d == nil {
-				return nil, errors.New("c18: unexpected resend")
+			t := c18At(sc.transport, a, c18TOut{fail: 0})
+			if t.fail >= 0 {
+				raise(c18ErrArg(t.fail))
+				return nil, c18Sentinels[t.fail]
 			}
-			if d.re.fail >= 0 {
-				raise(c18ErrArg(d.re.fail))
-				return nil, c18Sentinels[d.re.fail]
+			chal := ""
+			if d := digestAt(a); d != nil && d.chalOK {
+				chal = c18Challenge
 			}
-			return mkResp(r, d.re.h, 2*a+1, ""), nil
-		}
-	})
+			return mkResp(r, t.h, 2*a, chal), nil
+		})
+		// second exchange (digest): goes through Client.GetTransport().RoundTrip
+		c.GetTransport().DisableAutoDecode()
+		c.GetTransport().WrapRoundTripFunc(func(http.RoundTripper) HttpRoundTripFunc {
+			return func(r *http.Request) (*http.Response, error) {
+				ev("T")
+				a := att()
+				d := digestAt(a)
+				if d == nil {
+					return nil, errors.New("c18: unexpected resend")
+				}
+				if d.re.fail >= 0 {
+					raise(c18ErrArg(d.re.fail))
+					return nil, c18Sentinels[d.re.fail]
+				}
+				return mkResp(r, d.re.h, 2*a+1, ""), nil
+			}
+		})
+	}
 	// user request middleware
 	for i := range sc.udReq {
 		i := i
@@ -362,6 +410,9 @@ func c18Run(sc *c18Scenario) *c18Obs {
 	}
 	// hidden last user middleware: makes the built-in block fail on scripted attempts (bad URL)
 	goodURL := "http://c18.test/p"
+	if sc.e2e != "" {
+		goodURL = sc.e2e
+	}
 	c.OnBeforeRequest(func(_ *Client, r *Request) error {
 		touch()
 		if c18At(sc.builtin, att(), false) {
@@ -569,6 +620,19 @@ func c18Run(sc *c18Scenario) *c18Obs {
 	return o
 }
 
+// loopback origin shared by the e2e lane: /c/<id> is served by the handler of case <id>
+var c18E2EHandlers sync.Map
+var c18E2ESeq atomic.Int64
+
+func c18E2EServe(w http.ResponseWriter, r *http.Request) {
+	id := strings.TrimPrefix(r.URL.Path, "/c/")
+	if h, ok := c18E2EHandlers.Load(id); ok {
+		h.(http.Handler).ServeHTTP(w, r)
+		return
+	}
+	http.Error(w, "no such case", 599)
+}
+
 type rtFuncC18 func(*http.Request) (*http.Response, error)
 
 func (f rtFuncC18) RoundTrip(r *http.Request) (*http.Response, error) { return f(r) }
@@ -669,6 +733,12 @@ func (o *c18Obs) oracle(sc *c18Scenario) string {
 	}
 	if o.hooks != wantHooks {
 		return fmt.Sprintf("error hook ran %d times, want %d", o.hooks, wantHooks)
+	}
+	if sc.builderErr && r.Err == nil {
+		return "a request setter recorded an error but the call reports none"
+	}
+	if sc.unreplayable && sc.maxRetries != 0 && r.Err == nil {
+		return "retry with an unreplayable body was accepted"
 	}
 	res, es := r.SuccessResult() != nil, r.ErrorResult() != nil
 	if res && es {
@@ -1260,6 +1330,90 @@ func TestVerif_C18_pipe(t *testing.T) {
 	hist.need(t, "bound=success", "bound=errorR", "bound=errorC", "out=err:unm", "out=err:s", "out=err:builtin", "out=err:getbody", "out=err:builder",
 		"out=err:unreplay", "out=err:digest", "out=mustpanic", "out=ok", "attempts=1", "attempts=2", "attempts=3", "attempts=4", "final=nohttp",
 		"digest-resent", "hook=1", "entry=d", "entry=s", "entry=v", "entry=m")
+}
+
+// TestVerif_C18_e2e: the same contract over a real connection: req's own Transport against an
+// in-process origin on loopback (net/http/httptest), which plays the scripted exchanges.
+func TestVerif_C18_e2e(t *testing.T) {
+	s := verifh.New(t, "C18", "e2e",
+		"real client AND real transport (HTTP/1.1 over loopback) against an in-process httptest origin playing the script: final statuses {200,201,202,204,206,300,304,400,401,404,409,500,503} x content types x well/ill-formed bodies x targets x checkers x auto-read x entry points, 0..2 client/request-level response middleware, retry with scripted conditions, and the digest middleware answering a real 401 challenge; same observations, model line and oracle as the pipe lane; non-trivial = every case")
+	s.OracleIndependent = true
+	srv := httptest.NewServer(http.HandlerFunc(c18E2EServe))
+	defer srv.Close()
+	r := s.Rand()
+	hist := newC18Hist(s)
+	var scs []*c18Scenario
+	statuses := []int{200, 201, 202, 204, 206, 300, 304, 400, 401, 404, 409, 500, 503}
+	gen := func(ck c18Checker, status int) *c18Http {
+		h := c18GenHTTP(r, ck, 75)
+		h.status, h.readOK = status, true
+		if status == 204 || status == 304 {
+			h.body = "" // a real origin cannot send one
+		}
+		if status == 304 {
+			h.ct = "" // net/http's server suppresses Content-Type on 304
+		}
+		if r.Intn(2) == 0 && h.ct != "" && status != 304 && !strings.Contains(h.ct, "charset") {
+			h.ct += "; charset=utf-8"
+		}
+		c18Facts(h, ck)
+		return h
+	}
+	for k := 0; k < verifh.N(500, 6000); k++ {
+		sc := &c18Scenario{entry: "dsvm"[r.Intn(4)], sT: r.Intn(4) != 0, eT: r.Intn(2) == 0, cE: r.Intn(2) == 0,
+			autoRead: r.Intn(4) != 0, hook: true, verb: r.Intn(5), checker: c18Checkers[0], e2e: srv.URL}
+		if r.Intn(4) == 0 {
+			sc.checker = verifh.Pick(r, c18Checkers)
+		}
+		if r.Intn(4) == 0 {
+			sc.maxRetries = 1 + r.Intn(2)
+			sc.conds = make([]bool, sc.maxRetries+1)
+			for i := range sc.conds {
+				sc.conds[i] = r.Intn(2) == 0
+			}
+		}
+		natt := sc.maxRetries + 1
+		digest := r.Intn(4) == 0
+		for a := 0; a < natt; a++ {
+			st := verifh.Pick(r, statuses)
+			if digest && r.Intn(3) != 0 {
+				st = 401
+			}
+			sc.transport = append(sc.transport, c18TOut{fail: -1, h: gen(sc.checker, st)})
+		}
+		respAct := func() c18Act {
+			if r.Intn(4) != 0 {
+				return c18Act{kind: "n"}
+			}
+			return c18Act{kind: verifh.Pick(r, []string{"r", "s"}), e: c18GenErr(r)}
+		}
+		for i, n := 0, r.Intn(3); i < n; i++ {
+			st := make([]c18Act, natt)
+			for a := range st {
+				st[a] = respAct()
+			}
+			sc.clientResp = append(sc.clientResp, st)
+		}
+		if digest {
+			st := make([]c18Act, natt)
+			for a := range st {
+				st[a] = c18Act{kind: "d", chalOK: r.Intn(5) != 0, re: c18TOut{fail: -1, h: gen(sc.checker, verifh.Pick(r, []int{200, 200, 201, 403, 500}))}}
+			}
+			sc.reqResp = append(sc.reqResp, st)
+		}
+		for i, n := 0, r.Intn(2); i < n; i++ {
+			st := make([]c18Act, natt)
+			for a := range st {
+				st[a] = respAct()
+			}
+			sc.reqResp = append(sc.reqResp, st)
+		}
+		scs = append(scs, sc)
+	}
+	c18RunLane(t, s, hist, scs)
+	s.Finish()
+	hist.need(t, "bound=success", "bound=errorR", "bound=errorC", "out=err:unm", "out=err:s", "out=mustpanic", "out=ok", "digest-resent",
+		"final=S", "final=E", "final=U", "final=204", "attempts=2", "hook=1")
 }
 
 // c18Corpus: minimal witnesses (also proved as counter-examples of the as-found model in
